@@ -18,6 +18,7 @@ import (
 	"github.com/istio-ecosystem/authservice/internal/server"
 	"github.com/istio-ecosystem/authservice/zzverif/ev"
 	"github.com/istio-ecosystem/authservice/zzverif/par"
+	"github.com/istio-ecosystem/authservice/zzverif/schedx"
 	"github.com/istio-ecosystem/authservice/zzverif/world"
 )
 
@@ -598,7 +599,37 @@ func c15Run(run *ev.Run) {
 	if int(evals) != len(cases) {
 		run.Cap(fmt.Sprintf("%d of %d cases", evals, len(cases)))
 	}
-	run.Evals, run.States, run.Transitions, run.Traces = evals, evals, evals*3, evals
+	// crash freedom under interleavings: a logout or a second check on the same session racing a check whose token
+	// request is refused / garbled / forged (all schedules at store-call and token-call granularity, bound 2)
+	var scheds int64
+	for _, sc := range c15SchedScenarios(run.Tier) {
+		cs := schedx.Explore(run, "C15", sc)
+		scheds += cs.Schedules
+		run.Class("schedules|" + sc.Name)
+		if !cs.Complete {
+			run.Cap("scenario not completed: " + sc.Name)
+		}
+	}
+	run.Extra["schedules_explored"] = scheds
+	run.Evals, run.States, run.Transitions, run.Traces = evals+scheds, evals+scheds, evals*3+scheds, evals+scheds
+}
+
+func c15SchedScenarios(tier string) []schedx.Scenario {
+	answers := []world.Answer{{Name: "http400", Status: 400}, {Name: "forged", Evil: "foreign-same-kid"}, {Name: "garbage", UseRaw: true, RawBody: "{"}}
+	var scs []schedx.Scenario
+	stores := []string{"memory"}
+	if tier == "thorough" {
+		stores = append(stores, "redis")
+	}
+	for _, st := range stores {
+		for i := range answers {
+			a := answers[i]
+			for _, pre := range []string{"expired", "pending"} {
+				scs = append(scs, c09ScenarioWith(st, pre, 1, 2, &a, true), c09ScenarioWith(st, pre, 1, 2, &a, false))
+			}
+		}
+	}
+	return scs
 }
 
 func c15Sample(c c15Case) c15Case {
